@@ -248,6 +248,7 @@ def run(ctx):
     unchecked_extractor_needs_const_ok(ctx)
     guarded_overload_does_not_end_the_dispatch(ctx)
     temporary_argument_tuples_are_released(ctx)
+    collapsed_overload_sets_keep_every_overload(ctx)
 
 
 def _canon_arm(db, f, stmts, label):
@@ -694,3 +695,45 @@ def temporary_argument_tuples_are_released(ctx):
                                "the dispatch on the temporary `args` tuple returns without releasing it")
                         packed = False
     ctx.floor("R02.12", "dispatches written on a packed argument tuple", n, 3)
+
+
+def collapsed_overload_sets_keep_every_overload(ctx):
+    """R02.13: the dispatcher is written from `map_sets`: number of arguments -> the overloads callable with that many.
+    Default arguments make neighbouring sets nest (f(int, int = 7) is in the sets of 1 and of 2); collapse_default_remaps()
+    folds such a run into its highest entry and erases the others.  The erased entries may hold MORE overloads than the
+    kept one (pick(const string &) lives only in the set of 1), so before `map_sets.erase(first, kept)` the kept entry
+    must receive the superset: `kept->second = first->second` on every path to the erase.
+    (Seed S10-C02: that assignment put under an always-false condition; overloads vanished from the dispatcher.)"""
+    db = ctx.db
+    ctx.rule("R02.13", "in collapse_default_remaps, the range erase(first, kept) of the overload map is reached only through `kept->second = first->second`")
+    fs = [g for g in db.functions if g.name == "InterfaceMakerPythonNative::collapse_default_remaps"]
+    if not fs:
+        ctx.broken("R02.13: collapse_default_remaps not found")
+        return
+    f = fs[0]
+    p0 = (f.params or [{}])[0].get("d")
+    erases = [c for c in f.walk() if c.get("k") == "call" and callee_short(c) == "erase" and "this" in c and (local_ref(c["this"]) or {}).get("d") == p0 and len(c.get("a", [])) == 2]
+    first = None
+    for y in f.walk():
+        if f.cfg.locate(y) is not None:
+            first = y
+            break
+    n = 0
+    for c in erases:
+        n += 1
+        a, b = local_ref(c["a"][0]), local_ref(c["a"][1])
+        copies = []
+        if a is not None and b is not None:
+            for y in f.walk():
+                if y.get("k") == "call" and callee_short(y) == "operator=" and len(y.get("a", [])) >= 1:
+                    parts = ([y.get("this")] if "this" in y else []) + list(y.get("a", []))
+                    if len(parts) >= 2:
+                        tgt, val = strip_casts(peel(parts[0])), strip_casts(peel(parts[1]))
+                        if tgt is not None and val is not None and tgt.get("k") == "mem" and (tgt.get("n") or "").endswith("pair::second") and val.get("k") == "mem" and (val.get("n") or "").endswith("pair::second") and \
+                           any(z.get("k") == "ref" and z.get("d") == b["d"] for z in walk(tgt)) and any(z.get("k") == "ref" and z.get("d") == a["d"] for z in walk(val)):
+                            copies.append(y)
+        ok = bool(copies) and first is not None and not G.reaches_avoiding(f, first, copies, c)
+        ctx.ob("R02.13", "collapse_default_remaps|erase(%s,%s)|kept-set-gets-the-superset" % ((a or {}).get("n", "?"), (b or {}).get("n", "?")), ok, f.loc(c),
+               "the kept entry receives the overloads of the first erased entry on every path to the erase" if ok else
+               "the lower-count sets are erased without their overloads being copied into the kept set on every path")
+    ctx.floor("R02.13", "range erases of the overload map", n, 1)
